@@ -45,7 +45,8 @@ Zero == 0
 A == INSTANCE Abs WITH None <- None, Zero <- Zero
 
 VARIABLES
-  tst,      \* thread -> "unborn" | "live" | "dead"
+  tst,      \* thread -> "unborn" | "starting" (blocked registering its receiver while the collector
+            \*           holds the registry) | "live" | "dead"
   reg,      \* registry: sequence of threads whose receiver is registered
   ring,     \* thread -> Seq(command)
   pend,     \* thread -> overflow list (Vec: end = top)
@@ -584,6 +585,7 @@ Process(b) ==
   IN <<fa[1], cm[2] \o fa[2] \o DoStale(r[2], <<>>)>>
 
 \* end of a cycle: process, report, and the flush() that owns the cycle returns
+Starting == {t \in Threads : tst[t] = "starting"}
 Finish(b, g, owner) ==
   LET pr == Process(b)
       g1 == A!AbsStep(g, [ev |-> "process"])
@@ -626,27 +628,32 @@ Col ==
           /\ ring' = [ring EXCEPT ![t] = <<>>]
           /\ cph' = "check"
           /\ a' = GhostDrain(a, t)
-          /\ UNCHANGED <<reg, ci, cown, active>>
+          /\ UNCHANGED <<reg, ci, cown, active, tst>>
      ELSE IF tst[t] = "dead" /\ FixRecv /\ ring[t] # <<>>
      THEN \* repaired try_recv: look once more after seeing the channel abandoned
           /\ batch' = batch \o ring[t]
           /\ ring' = [ring EXCEPT ![t] = <<>>]
           /\ a' = GhostDrain(a, t)
-          /\ UNCHANGED <<reg, ci, cph, cown, active>>
+          /\ UNCHANGED <<reg, ci, cph, cown, active, tst>>
      ELSE LET dead == tst[t] = "dead"
               reg1 == IF dead THEN [i \in 1..(Len(reg) - 1) |-> IF i < ci THEN reg[i] ELSE reg[i + 1]] ELSE reg
               nxt == IF dead THEN ci ELSE ci + 1 IN
-          /\ reg' = reg1
           \* a removed receiver takes what is still in its ring with it
           /\ ring' = IF dead THEN [ring EXCEPT ![t] = <<>>] ELSE ring
-          /\ IF nxt > Len(reg1) THEN Finish(batch, a, cown)
-             ELSE a' = a /\ cph' = "drain" /\ ci' = nxt /\ UNCHANGED <<batch, cown, active>>
-  /\ UNCHANGED <<tst, pend, cur, inop, stack, hs, spans, lsets, futs, nid, nops, natt, ncyc, nfl, pc, quiet>>
+          /\ IF nxt > Len(reg1)
+             THEN \* the sweep is over, the registry is unlocked: threads that were waiting to register do so now
+                  /\ reg' = reg1 \o SetToSortSeq(Starting, <)
+                  /\ tst' = [u \in Threads |-> IF tst[u] = "starting" THEN "live" ELSE tst[u]]
+                  /\ Finish(batch, a, cown)
+             ELSE reg' = reg1 /\ a' = a /\ cph' = "drain" /\ ci' = nxt /\ UNCHANGED <<batch, cown, active, tst>>
+  /\ UNCHANGED <<pend, cur, inop, stack, hs, spans, lsets, futs, nid, nops, natt, ncyc, nfl, pc, quiet>>
 
+\* a new thread's first touch of its sender registers the receiver; that needs the registry,
+\* which the collector holds for the whole sweep: the thread waits until the sweep is over
 Spawn(t) ==
-  /\ tst[t] = "unborn" /\ cph = "idle"
-  /\ tst' = [tst EXCEPT ![t] = "live"]
-  /\ reg' = Append(reg, t)
+  /\ tst[t] = "unborn"
+  /\ tst' = [tst EXCEPT ![t] = IF cph = "idle" THEN "live" ELSE "starting"]
+  /\ reg' = IF cph = "idle" THEN Append(reg, t) ELSE reg
   /\ hist' = Append(hist, [ev |-> "spawn", t |-> t])
   /\ UNCHANGED <<ring, pend, cur, inop, stack, hs, spans, lsets, futs, cph, ci, batch, cown, active, nid, nops, natt, ncyc, nfl, pc, quiet, a>>
 
@@ -798,7 +805,9 @@ Spec == Init /\ [][Next]_vars
 (* what TLC checks *)
 CONSTANT Check      \* property ids whose clauses are checked in this instance
 Unknown(v) == v.k = None
-NoViolation == \A i \in DOMAIN a.viol : a.viol[i].p \notin Check \/ ~Unknown(a.viol[i])
+\* under overload the effects of lost or reordered signals are C09's business as well
+Counts(v) == v.p \in Check \/ ("C09" \in Check /\ a.ovl /\ v.p \in {"C01", "C03", "C04", "C08"})
+NoViolation == \A i \in DOMAIN a.viol : ~Counts(a.viol[i]) \/ ~Unknown(a.viol[i])
 \* the pinned-variant runs expect this to fail: shows the invariant is not vacuous
 Clean == a.viol = <<>>
 
